@@ -11,7 +11,7 @@
 From Coq Require Import Lia Permutation.
 From Ink.Data Require Import Types Path InkList IntSem Value Native InkListProofs NativeProofs.
 From Ink.Gen Require Import NativeGen.
-From Ink.Spec Require Import KeyOrder ListSpec.
+From Ink.Spec Require Import KeyOrder ListSpec ListSpecProofs.
 Local Open Scope Z_scope.
 
 Inductive sval :=
@@ -178,8 +178,21 @@ Definition spec_list_unary (ds : list listdef) (op : nop) (a : sset) : sres :=
   | NNot => ROk (SInt (if s_is_empty a then 1 else 0))
   | NAll => ROk (SList (s_all ds))
   | NInvert => ROk (SList (s_invert ds a))
+  | NListMin => ROk (SList (s_min_list a))
+  | NListMax => ROk (SList (s_max_list a))
   | _ => RErr
   end.
+(* list + int / list - int ([ds]: the declarations of the list's origins) *)
+Definition spec_list_increment (ds : list listdef) (op : nop) (a : sset) (n : Z) : sres :=
+  match op with
+  | NAdd => ROk (SList (s_shift ds a n))
+  | NSubtract => ROk (SList (s_shift ds a (- n)))
+  | _ => RErr
+  end.
+(* the commands LIST_RANGE(list, lo, hi) and ListName(n) *)
+Definition spec_list_range (a : sset) (lo hi : sbound) : sres := ROk (SList (s_range_b a lo hi)).
+Definition spec_list_from_int (ds : list listdef) (name : text) (n : Z) : sres :=
+  match s_from_int ds name n with Some s => ROk (SList s) | None => RErr end.
 End Spec.
 
 (* ---------- abstraction of model values and outcomes ---------- *)
@@ -272,7 +285,7 @@ Proof. intros. rewrite sem_now_wrapping. apply native_list_binary_refines_wrappi
 
 (* ---------- lists: unary operators ---------- *)
 Definition list_unary_covered (op : nop) : bool :=
-  match op with NCount | NValueOfList | NNot | NAll | NInvert => true | _ => false end.
+  match op with NCount | NValueOfList | NNot | NAll | NInvert | NListMin | NListMax => true | _ => false end.
 
 Theorem native_list_unary_refines_lemma : forall oo sem ovf fo defs op a ds,
   ord_ok oo -> wf_list a -> origin_defs defs a = Ok ds -> Forall wf_def ds ->
@@ -288,6 +301,8 @@ Proof.
   destruct op; try discriminate Hop; cbn [call_type un list_unary not_op]; unfold ok_val;
     cbn [abs_res abs_value option_map spec_list_unary].
   - rewrite is_empty_abs_list. reflexivity.
+  - rewrite (min_as_list_refines oo a Hoo Ha). reflexivity.
+  - rewrite (max_as_list_refines oo a Hoo Ha). reflexivity.
   - destruct (all_refines defs a ds Hds Hwf) as [r [Hr Habs]]. rewrite Hr.
     cbn [bind abs_res abs_value option_map]. rewrite Habs. reflexivity.
   - rewrite count_refines by assumption. reflexivity.
